@@ -210,7 +210,7 @@ func init() {
 		Rule: seqRule + "concurrent: the real SyncWAL loop + the trigger dispatcher + two writers (A; AA then B), ALL interleavings with <=2 deviations (thorough 3), then shutdown. " +
 			"reference matcher: the pattern is matched component-wise from the start of the key path, '*' = exactly one component. expected = every acknowledged record once per matching trigger, nothing else. non-trivial = >=2 writes / >=1 deviation",
 		Assume:   []string{"the bucket alphabet avoids names where the component-wise and the string-prefix reading of the documentation differ, except the leading-substring case A vs AA", "UTC"},
-		QuickMax: 8 * time.Minute, ThorMax: 40 * time.Minute,
+		QuickMax: 8 * time.Minute, ThorMax: 30 * time.Minute,
 	}, func(c *mc.Ctx, yield func(schedSpec)) {
 		// sequential histories are encoded as Scen = -1 with the history in Prefix
 		var rec func(cur []int)
